@@ -409,7 +409,7 @@ var reviewedPanics = map[string]struct {
 	"(*server.Topic).handleServerMsg":              {1, "default arm over server-generated message kinds"},
 	"(*server.Topic).handleLeaveRequest":           {1, "leave request without a resolvable user from a non-cluster session: assertion"},
 	"(*server.Topic).handleSessionUpdate":          {1, "user-agent update routed to a non-me topic: assertion"},
-	"(*server.Topic).original":                     {1, "p2p name rendering for a non-participant: needs a root session acting on behalf of a non-participant (not probed)"},
+	"(*server.Topic).original":                     {1, "FINDING D16: p2p name rendering panics for a non-participant; a root session acting on behalf of a user who is not a participant of the p2p topic reaches it through the denial reply of a {pub} (probe: /verif/probes/d16_p2p_original_panic_test.go)"},
 	"(*server.Topic).p2pOtherUser":                 {2, "p2p topic with other than two subscribers / wrong category: assertion"},
 	"(*server.Topic).procPresReq":                  {1, "default arm over server-generated presence commands"},
 	"(*server.Topic).proxyCtrlBroadcast":           {1, "eviction notice from the master without uid: cluster protocol invariant"},
@@ -482,6 +482,8 @@ func (c *Ctx) checkPanicCensus() {
 			r.Fail("C13.5-panic-census", construct, c.pos(first[k]), fmt.Sprintf("%d explicit panic/fatal site(s) in a function that can run on a serving goroutine and is not in the reviewed table", count[k]))
 		case count[k] > row.n:
 			r.Fail("C13.5-panic-census", construct, c.pos(first[k]), fmt.Sprintf("%d sites, reviewed table lists %d: a new explicit panic was added", count[k], row.n))
+		case strings.HasPrefix(row.why, "FINDING"):
+			r.Fail("C13.5-panic-census", construct, c.pos(first[k]), row.why)
 		default:
 			r.OK("C13.5-panic-census", construct, c.pos(first[k]), fmt.Sprintf("%d site(s), reviewed: %s", count[k], row.why))
 		}
